@@ -149,6 +149,13 @@ Section Spec.
     | _ => occurs_ok f x && conf (dmulti f) (df_ty f) x
     end.
 
+  Fixpoint members_conf (ffs : list dfield) (fs : list dval) : bool :=
+    match ffs, fs with
+    | [], [] => true
+    | f :: r, x :: s => member_conf f x && members_conf r s
+    | _, _ => false
+    end.
+
   (** ** well-formed universes: member names are distinct encodable text, arrays are
       single-occurrence members, occurrence bounds make sense, class names are distinct *)
   Fixpoint text_mem (x : text) (l : list text) : bool :=
@@ -292,30 +299,27 @@ Section Calls.
   (** the conventional response document: the bare value of a single result when
       wrappers are ignored, else the out_message object *)
   Definition sresp (s : dsig) (rets : list dval) : jv :=
-    match c_iw c, sg_results s, rets with
-    | true, [r], [v] => senc c (ext_universe U s) st (dmulti r) (df_ty r) v
-    | _, _, _ => senc c (ext_universe U s) st false (DRef (out_cid U)) (DObj (out_cid U) rets)
+    match single_result c s rets with
+    | Some (r, v) => senc c (ext_universe U s) st (dmulti r) (df_ty r) v
+    | None => senc c (ext_universe U s) st false (DRef (out_cid U)) (DObj (out_cid U) rets)
     end.
 
   (** the reference reader of a response document: the structural reader over the
-      reference leaf reader, no validation *)
-  Definition ref_cfg : cfg := mkcfg (c_proto c) (c_iw c) (c_list c) (c_poly c) false.
-
+      reference leaf reader; null is None *)
   Definition sresp_dec (fuel : nat) (s : dsig) (j : jv) : out (list dval) :=
     let U' := ext_universe U s in
     match c_iw c, sg_results s with
     | true, [r] =>
-        (* one result: a repeated one is a list of items, else a single member document *)
-        if dmulti r then
+        if jv_is_null j then Ok [DNone]
+        else if dmulti r then
           match j with
-          | JNull => Ok [DNone]
-          | JList l => do xs <- mapM (fdv_gen ref_cfg U' (sleaf_dec c) fuel (df_nillable r) (df_ty r)) l;
+          | JList l => do xs <- mapM (fdv_gen c U' (sleaf_dec c) fuel (df_nillable r) (df_ty r)) l;
                        Ok [DList xs]
           | _ => VFault
           end
-        else do x <- fdv_gen ref_cfg U' (sleaf_dec c) fuel (df_nillable r) (df_ty r) j; Ok [x]
+        else do x <- fdv_gen c U' (sleaf_dec c) fuel (df_nillable r) (df_ty r) j; Ok [x]
     | _, _ =>
-        do o <- d2o_gen ref_cfg U' (sleaf_dec c) fuel (DRef (out_cid U)) j;
+        do o <- d2o_gen c U' (sleaf_dec c) fuel (DRef (out_cid U)) j;
         match o with
         | DObj _ rets => Ok rets
         | _ => VFault
